@@ -1,7 +1,7 @@
 (* C04/Model.v — POMDP::Policy's use of a value function (src/POMDP/Policies/Policy.cpp).
    The solvers' value-function construction is modelled in C02/Model.v.  No proofs here. *)
 From Coq Require Import List Arith QArith Bool.
-From AIT Require Import Base.Qx Base.Mdp C02.Model C02.Spec.
+From AIT Require Import Base.Qx Base.Mdp Base.MdpExec C02.Model C02.Spec.
 Import ListNotations.
 
 (* src: Policy::sampleAction(id, o, horizon):  vlist = policy_[horizon+1];
@@ -62,3 +62,28 @@ Definition policy_first (vf : list vlist) (h : nat) (b : vec) : option (nat * na
                | Some e => Some (act e, best_index vl b)
                end
   end.
+
+(* src: POMDP/Utils.hpp:crossSumBestAtBelief(b, row, &out, &value) for one action row: per
+   observation take findBestAtPoint of the projection list at b, add its vector, link to ITS parent
+   id (observations[0]).  [row] is the list of projection lists, one per observation. *)
+Definition csbb_row (b : vec) (row : list vlist) (a : nat) (S : nat) : ventry * Q :=
+  let picks := map (fun r => nth (best_index r b) r dummy_entry) row in
+  ({| vals := fold_left (fun acc e => vred (vadd acc (vals e))) picks (vzero S);
+      act := a;
+      obs := map (fun e => hd O (obs e)) picks |},
+   Qred (qsum (map (fun e => dot (vals e) b) picks))).
+
+(* the projections of one action, unpruned, as PBVI / Witness / LinearSupport / PERSEUS use them *)
+Definition proj_row (m : pomdp) (w : vlist) (a : nat) : list vlist :=
+  map (fun o => project m w a o) (seq 0 (nO m)).
+
+(* src: crossSumBestAtBelief(b, projs, &value): best action's entry, strict > update from action 0 *)
+Fixpoint csbb_all_go (m : pomdp) (w : vlist) (b : vec) (best : ventry * Q) (acts : list nat) : ventry * Q :=
+  match acts with
+  | [] => best
+  | a :: t =>
+    let cand := csbb_row b (proj_row m w a) a (nS (pm m)) in
+    if Qlt_le_dec (snd best) (snd cand) then csbb_all_go m w b cand t else csbb_all_go m w b best t
+  end.
+Definition csbb_all (m : pomdp) (w : vlist) (b : vec) : ventry * Q :=
+  csbb_all_go m w b (csbb_row b (proj_row m w 0) 0 (nS (pm m))) (seq 1 (nA (pm m) - 1)).
